@@ -137,6 +137,11 @@ Definition reviewed_effects : list (effect * verdict) := [
   (Eff "compose"%string "link"%string CRecord "taskManager.needAll <- runner.eager"%string, ReadOnly);
   (* runner.invoke, runner.run, runner.transform *)
   (Eff "compose"%string "link"%string CRecord "taskManager.opts <- param(...Option)"%string, ReadOnly);
+  (* ToolsNode.Invoke, ToolsNode.Stream: the task of one tool call refers to the node's tool tuple (round 6: the link is
+     seen whether the task is filled field by field or written as a literal) *)
+  (Eff "compose"%string "link"%string CRecord "toolCallTask.meta <- ToolsNode.tuple.meta[]"%string, ReadOnly);
+  (* ToolsNode.Invoke, ToolsNode.Stream *)
+  (Eff "compose"%string "link"%string CRecord "toolCallTask.r <- ToolsNode.tuple.rps[]"%string, ReadOnly);
   (* convert, isMappedFragment, pairWrittenToTarget, restore *)
   (Eff "compose"%string "pkgvar"%string CPkg "mappedFragmentConvertPair"%string, ReadOnly);
   (* graphNode.beforeChildGraphCompile$closure *)
